@@ -169,9 +169,29 @@ inline std::string mutate_file(vf::Chooser& c, const std::string& valid, unsigne
         }
         case 9: {  // time related fields: ticks-per-second, earliest time, offsets
           // file[1] preamble -> key 3 -> sets -> key 0 storage parameters -> key 0 tps ; blocks -> key 0 preamble -> key 0 earliest
-          uint64_t m = c.range(0, 2);
+          uint64_t m = c.range(0, 3);
           uint64_t v = c.pick<uint64_t>({0ull, 1ull, 0xFFFFFFFFFFFFFFFFull, 0x8000000000000000ull, 0x7FFFFFFFFFFFFFFFull, 0x4000000000000001ull});
           bool done = false;
+          if (m == 3 && root.kids.size() == 3) {
+            // two cooperating lies: every tick rate AND every earliest time / record offset of every block get boundary values
+            // (the arithmetic that combines them is only reached with both)
+            uint64_t tps = c.pick<uint64_t>({0xFFFFFFFFFFFFFFFFull, 0x8000000000000000ull, 0x7FFFFFFFFFFFFFFFull, 1ull, 0ull, 0xFFFFFFFFFFFFFFFEull});
+            Node& pre = root.kids[1];
+            for (size_t i = 0; i + 1 < pre.kids.size(); i += 2) if (pre.kids[i].is_uint() && pre.kids[i].arg == 3)
+              for (auto& bp : pre.kids[i + 1].kids) for (size_t j = 0; j + 1 < bp.kids.size(); j += 2) if (bp.kids[j].is_uint() && bp.kids[j].arg == 0)
+                for (size_t k = 0; k + 1 < bp.kids[j + 1].kids.size(); k += 2) if (bp.kids[j + 1].kids[k].is_uint() && bp.kids[j + 1].kids[k].arg == 0) bp.kids[j + 1].kids[k + 1] = cref::mk_uint(tps);
+            static const uint64_t OFF[] = {0x8000000000000000ull, 0x7FFFFFFFFFFFFFFFull, 0x8000000000000001ull, 0xFFFFFFFFFFFFFFFFull, 0ull, 1ull};
+            for (auto& blk : root.kids[2].kids) for (size_t i = 0; i + 1 < blk.kids.size(); i += 2) {
+              if (blk.kids[i].is_uint() && blk.kids[i].arg == 0 && c.coin()) {
+                Node& bpre = blk.kids[i + 1];
+                for (size_t j = 0; j + 1 < bpre.kids.size(); j += 2) if (bpre.kids[j].is_uint() && bpre.kids[j].arg == 0 && bpre.kids[j + 1].kids.size() == 2) { bpre.kids[j + 1].kids[0] = cref::mk_uint(OFF[c.range(0, 5)]); bpre.kids[j + 1].kids[1] = cref::mk_uint(OFF[c.range(0, 5)]); }
+              }
+              if (blk.kids[i].is_uint() && (blk.kids[i].arg == 3 || blk.kids[i].arg == 5))
+                for (auto& item : blk.kids[i + 1].kids) for (size_t j = 0; j + 1 < item.kids.size(); j += 2) if (item.kids[j].is_uint() && item.kids[j].arg == 0) { item.kids[j + 1] = cref::mk_uint(OFF[c.range(0, 5)]); done = true; }
+            }
+            if (done) { ov.clear(); st.kinds["tick_rate_and_offsets"]++; }
+            break;
+          }
           if (root.kids.size() == 3) {
             if (m == 0) {
               Node& pre = root.kids[1];
